@@ -409,8 +409,12 @@ def extract_playback_tests(text, hname):
     for m in re.finditer(r"```\n(.*?)```", text, re.S):
         code = m.group(1)
         if ("fn kani_concrete_playback_%s_" % hname) in code:
-            kind = re.search(r"/// Check for `(\w+)`: \"(.*)\"", code)
-            tests.append((kind.group(1) if kind else "?", kind.group(2) if kind else "", code))
+            kind = re.search(r"/// Check for `(\w+)`: \"(.*)", code)
+            # keep only the test item itself: the doc comment may be line-wrapped by Kani in a
+            # way that does not compile (a description containing a line break)
+            body = code[code.index("#[test]"):] if "#[test]" in code else code
+            tests.append((kind.group(1) if kind else "?",
+                          kind.group(2).rstrip('"') if kind else "", body))
     return tests
 
 
